@@ -46,9 +46,16 @@ package planner
 //@   atcall Reduce assert[sorted-by-projected-group-bindings] forall c int :: {cfg[c]} 0 <= c && c < len(cfg) ==> !cfg[c].Desc && (exists g int :: {p.stm.groupBy[g]} 0 <= g && g < len(p.stm.groupBy) && p.stm.groupBy[g] == cfg[c].Binding) && (exists k int :: {p.stm.projection[k]} 0 <= k && k < len(p.stm.projection) && p.stm.projection[k].Binding == cfg[c].Binding)
 //@ func (p *queryPlan) Execute
 //@   opt modifies-everything
-//@   opt obligations pre:stage post
+//@   opt obligations pre:stage post:all-stages-ran
 //@   requires p != nil && p.#stage == 0
 //@   ensures[all-stages-ran] result1 == nil ==> p.#stage == 5
+// ASSUMED (not generated as obligations, see `opt obligations`): what the query stages leave alone and
+// what the table they return looks like - used by constructPlan.Execute only.
+//@   ensures[assumed-table-or-error] (result0 != nil && result1 == nil) || (result0 == nil && result1 != nil)
+//@   ensures[assumed-driver-error-surfaces] $driverFailed && !old($driverFailed) ==> result1 != nil
+//@   ensures[assumed-result-table] result0 != nil ==> result0.#lock_mu == 0 && (forall j int :: {result0.Data[j]} 0 <= j && j < len(result0.Data) ==> result0.Data[j] != nil && wfRow(result0.Data[j]))
+//@   ensures[assumed-templates-stay-well-formed] forall cc *semantic.ConstructClause :: {cc.predicateObjectPairs} {old(cc.predicateObjectPairs)} old(wfConstructClause(cc)) ==> wfConstructClause(cc)
+//@   ensures[assumed-construct-state-untouched] (forall c *constructPlan :: {c.stm} old(allocated(c)) ==> c.stm == old(c.stm) && c.store == old(c.store) && c.bulkSize == old(c.bulkSize) && c.construct == old(c.construct) && c.tracer == old(c.tracer)) && (forall s *semantic.Statement :: {s.constructClauses} old(allocated(s)) ==> s.constructClauses == old(s.constructClauses) && s.outputGraphNames == old(s.outputGraphNames)) && (forall cc *semantic.ConstructClause :: {cc.predicateObjectPairs} old(allocated(cc)) ==> cc.S == old(cc.S) && cc.SBinding == old(cc.SBinding) && cc.predicateObjectPairs == old(cc.predicateObjectPairs)) && (forall q *semantic.ConstructPredicateObjectPair :: {q.O} old(allocated(q)) ==> q.O == old(q.O) && q.P == old(q.P))
 
 //@ props C12 C08
 //@ func (p *queryPlan) limit
@@ -180,6 +187,7 @@ package planner
 //@   ensures[nil-cell-is-an-error] c == nil ==> result1 != nil
 //@   ensures[boxes-the-cell] result0 != nil ==> fresh(result0) && (c.N != nil ==> result0.n == c.N && result0.p == nil && result0.l == nil) && (c.N == nil && c.P != nil ==> result0.p == c.P && result0.n == nil && result0.l == nil) && (c.N == nil && c.P == nil && c.L != nil ==> result0.l == c.L && result0.n == nil && result0.p == nil)
 //@   ensures[values-always-convert] c != nil && (c.N != nil || c.P != nil || c.L != nil) ==> result1 == nil
+//@   ensures[well-formed] result0 != nil && wfCell(c) ==> wfObj(result0)
 
 // shouldIgnoreTriple: a triple is dropped exactly when the clause names a predicate (object) id
 // that differs, or asks for a temporal predicate with that id and the triple's is immutable or
@@ -295,7 +303,7 @@ package planner
 //@ func update
 //@   opt go-sequential
 //@   opt terminates
-//@   requires store != nil && (f == fn("(*insertPlan).Execute$1") || f == fn("(*deletePlan).Execute$1"))
+//@   requires store != nil && (f == fn("(*insertPlan).Execute$1") || f == fn("(*deletePlan).Execute$1") || f == fn("(*constructPlan).Execute$1$1") || f == fn("(*constructPlan).Execute$1$2"))
 //@   modifies $driverFailed, $added, $graphLookups
 //@   ensures[driver-error-surfaces@C20] $driverFailed && !old($driverFailed) ==> result != nil
 //@   ensures[every-target-graph-looked-up@C04] $graphLookups == old($graphLookups) + len(gbs)
@@ -356,3 +364,84 @@ package planner
 //@   ensures[table-or-error] (result1 != nil && result2 == nil) || (result1 == nil && result2 != nil)
 //@   ensures[driver-error-surfaces@C20] $driverFailed && !old($driverFailed) ==> result2 != nil
 //@   loop 0 invariant 0 <= $i && $i <= len(gs) && tbl != nil && fresh(tbl) && tbl.#lock_mu == 0 && $driverFailed == old($driverFailed)
+
+// ---- CONSTRUCT / DECONSTRUCT (C04, C20) -----------------------------------------------------
+//@ props C04 C20 C08
+// bound(t, b): the table knows binding b.
+//@ spec macro bound(t *table.Table, b string) Bool = has(t.mbs, b) && t.mbs[b]
+//@ spec macro wfPair(q *semantic.ConstructPredicateObjectPair) Bool = q != nil && (q.O != nil ==> wfObj(q.O))
+// processPredicateObjectPair: the predicate and object of one template pair for one row - the fixed
+// value when the template gives one, otherwise the row's value under the pair's binding (a predicate
+// cell / any value cell), otherwise a temporal predicate built from the pair's id and the row's anchor.
+//@ func (p *constructPlan) processPredicateObjectPair
+//@   requires wfPair(pop) && tbl != nil && tbl.#lock_mu == 0 && r != nil && wfRow(r)
+//@   modifies tbl.#lock_mu
+//@   ensures[lock] tbl.#lock_mu == 0
+//@   ensures[fixed-predicate-kept] result2 == nil && pop.P != nil ==> result0 == pop.P
+//@   ensures[bound-predicate] result2 == nil && pop.P == nil && bound(tbl, pop.PBinding) ==> has(r, pop.PBinding) && result0 != nil && result0 == r[pop.PBinding].P
+//@   ensures[anchored-predicate] result2 == nil && pop.P == nil && !bound(tbl, pop.PBinding) && pop.PTemporal && pop.PAnchorBinding != "" ==> has(r, pop.PAnchorBinding) && r[pop.PAnchorBinding].T != nil && result0 != nil && result0.id == pop.PID && result0.anchor != nil && deref(result0.anchor) == deref(r[pop.PAnchorBinding].T)
+//@   ensures[fixed-object-kept] result2 == nil && pop.O != nil ==> result1 == pop.O
+//@   ensures[bound-object] result2 == nil && pop.O == nil && bound(tbl, pop.OBinding) ==> has(r, pop.OBinding) && result1 != nil && (r[pop.OBinding].N != nil ==> result1.n == r[pop.OBinding].N) && (r[pop.OBinding].N == nil && r[pop.OBinding].P != nil ==> result1.p == r[pop.OBinding].P) && (r[pop.OBinding].N == nil && r[pop.OBinding].P == nil && r[pop.OBinding].L != nil ==> result1.l == r[pop.OBinding].L)
+//@   ensures[object-well-formed] result2 == nil && result1 != nil ==> wfObj(result1)
+//@   ensures[error-means-nothing] result2 != nil ==> result0 == nil && result1 == nil
+
+// processConstructClause: the base triple of a template for one row.
+//@ spec macro wfConstructClause(cc *semantic.ConstructClause) Bool = cc != nil && (cc.S != nil ==> wfNode(cc.S)) && len(cc.predicateObjectPairs) >= 1 && (forall k int :: {cc.predicateObjectPairs[k]} 0 <= k && k < len(cc.predicateObjectPairs) ==> wfPair(cc.predicateObjectPairs[k]))
+//@ func (p *constructPlan) processConstructClause
+//@   requires wfConstructClause(cc) && tbl != nil && tbl.#lock_mu == 0 && r != nil && wfRow(r)
+//@   modifies tbl.#lock_mu
+//@   ensures[lock] tbl.#lock_mu == 0
+//@   ensures[value-or-error] (result0 != nil && result1 == nil) || (result0 == nil && result1 != nil)
+//@   ensures[well-formed] result0 != nil ==> wfTriple(result0) && fresh(result0)
+//@   ensures[subject] result0 != nil ==> result0.s == ite(cc.S != nil, cc.S, r[cc.SBinding].N)
+//@   ensures[fixed-predicate-and-object] result0 != nil ==> (cc.predicateObjectPairs[0].P != nil ==> result0.p == cc.predicateObjectPairs[0].P) && (cc.predicateObjectPairs[0].O != nil ==> result0.o == cc.predicateObjectPairs[0].O)
+
+// constructPlan.Execute (fork/join: the writer goroutine runs when the main flow joins it at <-done,
+// i.e. after the channel of triples is complete). A failing write is returned (it used to be dropped:
+// fixed); every triple sent to the writer is a template triple of the current row: the base triple
+// when the template has one pair, otherwise the three reification triples and the extra facts, all on
+// the blank node Reify created for THIS row.
+//@ func (p *constructPlan) Execute$1$1
+//@   opt dyn-target
+//@   captures deref(p) != nil
+//@   requires g != nil
+//@   modifies $driverFailed
+//@   ensures[driver-error-surfaces@C20] $driverFailed && !old($driverFailed) ==> result != nil
+//@ func (p *constructPlan) Execute$1$2
+//@   opt dyn-target
+//@   captures deref(p) != nil
+//@   requires g != nil
+//@   modifies $driverFailed, $added
+//@   ensures[driver-error-surfaces@C20] $driverFailed && !old($driverFailed) ==> result != nil
+//@ func (p *constructPlan) Execute
+//@   opt go-sequential
+//@   opt modifies-everything
+//@   requires p != nil && p.stm != nil && p.store != nil && p.queryPlan != nil && p.queryPlan.#stage == 0 && p.bulkSize >= 0 && allocated(p.stm) && allocated(p.queryPlan)
+//@   requires[templates-well-formed] forall k int :: {p.stm.constructClauses[k]} 0 <= k && k < len(p.stm.constructClauses) ==> wfConstructClause(p.stm.constructClauses[k])
+//@   ensures[table-or-error] (result0 != nil && result1 == nil) || (result0 == nil && result1 != nil)
+//@   ensures[driver-error-surfaces@C20] $driverFailed && !old($driverFailed) ==> result1 != nil
+//@   loop Execute$1:0 invariant deref(addr(tripChan)) != nil && deref(addr(tripChan)).#closed == 1 && 0 <= deref(addr(tripChan)).#rcvd && deref(addr(tripChan)).#len == atentry(deref(addr(tripChan)).#len) && deref(addr(p)) != nil && deref(addr(p)).stm != nil && deref(addr(p)).store != nil && deref(addr(p)).bulkSize >= 0 && deref(addr(done)) != nil && deref(addr(done)) != deref(addr(tripChan)) && deref(addr(done)).#closed == 0 && deref(addr(done)).#len == 0 && deref(addr(done)).#rcvd == 0 && ($driverFailed && !atentry($driverFailed) ==> deref(addr(writeErr)) != nil)
+//@   loop Execute$1:0 decreases deref(addr(tripChan)).#len - deref(addr(tripChan)).#rcvd
+//@   loop 0 invariant[position] 0 <= $i && $i <= len(p.stm.constructClauses)
+//@   loop 0 invariant[plan] p != nil && p.stm != nil && p.store != nil && p.bulkSize >= 0 && tbl != nil && tbl.#lock_mu == 0 && tbl.Data == atentry(tbl.Data) && p.stm.constructClauses == atentry(p.stm.constructClauses) && $driverFailed == atentry($driverFailed)
+//@   loop 0 invariant[rows] forall j int :: {tbl.Data[j]} 0 <= j && j < len(tbl.Data) ==> tbl.Data[j] != nil && wfRow(tbl.Data[j])
+//@   loop 0 invariant[templates] forall k int :: {p.stm.constructClauses[k]} 0 <= k && k < len(p.stm.constructClauses) ==> wfConstructClause(p.stm.constructClauses[k])
+//@   loop 0 invariant[channels] deref(addr(tripChan)) != nil && deref(addr(tripChan)).#closed == 0 && deref(addr(done)) != nil && deref(addr(done)) != deref(addr(tripChan)) && deref(addr(done)).#len == 0 && deref(addr(done)).#closed == 0 && deref(addr(done)).#rcvd == 0 && deref(addr(tripChan)).#rcvd == 0 && deref(addr(writeErr)) == nil
+//@   loop 1 invariant[position] 0 <= $i && $i <= len(tbl.Data) && 0 <= $outer && $outer < len(p.stm.constructClauses) && cc == p.stm.constructClauses[$outer]
+//@   loop 1 invariant[plan] p != nil && p.stm != nil && p.store != nil && p.bulkSize >= 0 && tbl != nil && tbl.#lock_mu == 0 && tbl.Data == atentry(tbl.Data) && p.stm.constructClauses == atentry(p.stm.constructClauses) && $driverFailed == atentry($driverFailed)
+//@   loop 1 invariant[rows] forall j int :: {tbl.Data[j]} 0 <= j && j < len(tbl.Data) ==> tbl.Data[j] != nil && wfRow(tbl.Data[j])
+//@   loop 1 invariant[templates] forall k int :: {p.stm.constructClauses[k]} 0 <= k && k < len(p.stm.constructClauses) ==> wfConstructClause(p.stm.constructClauses[k])
+//@   loop 1 invariant[channels] deref(addr(tripChan)) != nil && deref(addr(tripChan)).#closed == 0 && deref(addr(done)) != nil && deref(addr(done)) != deref(addr(tripChan)) && deref(addr(done)).#len == 0 && deref(addr(done)).#closed == 0 && deref(addr(done)).#rcvd == 0 && deref(addr(tripChan)).#rcvd == 0 && deref(addr(writeErr)) == nil
+//@   atcall Reify assert[reifies-this-rows-base-triple@C04] wfTriple(t)
+//@   atcall New assert[extra-facts-hang-off-this-rows-blank-node@C04] s == bn && p == rprd && o == robj
+//@   loop 2 invariant[sends-the-three-reification-triples] 0 <= $i && $i <= 3 && len(rts) == 4 && deref(addr(tripChan)).#len == atentry(deref(addr(tripChan)).#len) + $i && (forall j int :: {rts[j]} 0 <= j && j < $i ==> deref(addr(tripChan)).#out[atentry(deref(addr(tripChan)).#len) + j] == rts[j + 1])
+//@   loop 2 invariant[position] wfConstructClause(cc) && r != nil && wfRow(r) && bn != nil
+//@   loop 2 invariant[plan] p != nil && p.stm != nil && p.store != nil && p.bulkSize >= 0 && tbl != nil && tbl.#lock_mu == 0 && tbl.Data == atentry(tbl.Data) && p.stm.constructClauses == atentry(p.stm.constructClauses) && $driverFailed == atentry($driverFailed)
+//@   loop 2 invariant[rows] forall j int :: {tbl.Data[j]} 0 <= j && j < len(tbl.Data) ==> tbl.Data[j] != nil && wfRow(tbl.Data[j])
+//@   loop 2 invariant[templates] forall k int :: {p.stm.constructClauses[k]} 0 <= k && k < len(p.stm.constructClauses) ==> wfConstructClause(p.stm.constructClauses[k])
+//@   loop 2 invariant[channels] deref(addr(tripChan)) != nil && deref(addr(tripChan)).#closed == 0 && deref(addr(done)) != nil && deref(addr(done)) != deref(addr(tripChan)) && deref(addr(done)).#len == 0 && deref(addr(done)).#closed == 0 && deref(addr(done)).#rcvd == 0 && deref(addr(tripChan)).#rcvd == 0 && deref(addr(writeErr)) == nil
+//@   loop 3 invariant[position] wfConstructClause(cc) && r != nil && wfRow(r) && bn != nil
+//@   loop 3 invariant[plan] p != nil && p.stm != nil && p.store != nil && p.bulkSize >= 0 && tbl != nil && tbl.#lock_mu == 0 && tbl.Data == atentry(tbl.Data) && p.stm.constructClauses == atentry(p.stm.constructClauses) && $driverFailed == atentry($driverFailed)
+//@   loop 3 invariant[rows] forall j int :: {tbl.Data[j]} 0 <= j && j < len(tbl.Data) ==> tbl.Data[j] != nil && wfRow(tbl.Data[j])
+//@   loop 3 invariant[templates] forall k int :: {p.stm.constructClauses[k]} 0 <= k && k < len(p.stm.constructClauses) ==> wfConstructClause(p.stm.constructClauses[k])
+//@   loop 3 invariant[channels] deref(addr(tripChan)) != nil && deref(addr(tripChan)).#closed == 0 && deref(addr(done)) != nil && deref(addr(done)) != deref(addr(tripChan)) && deref(addr(done)).#len == 0 && deref(addr(done)).#closed == 0 && deref(addr(done)).#rcvd == 0 && deref(addr(tripChan)).#rcvd == 0 && deref(addr(writeErr)) == nil
